@@ -1960,6 +1960,123 @@ theorem sent_sum_le (ops : List Op) :
   rw [he]
   exact powers_sum_le sn p.1
 
+/-- **jit_sends_only_with_quorum** (the gate of `justInTimeValsetUpdate`, in ANY state, for both
+answers of the relayer assignment): a just-in-time update either leaves the whole state — queue and
+log included — unchanged, or the chain is supported and ACTIVE, a snapshot other than the current
+one is live on it, the valset of the CURRENT snapshot for that chain passes the quorum test (its
+powers sum to at least the constant) and exactly that valset is handed to `SendValsetMsgForChain`.
+In particular a restriction that is non-empty but below the quorum is never sent
+(`jit_below_quorum_not_sent`). -/
+theorem jit_sends_only_with_quorum (s : St) (c : Nat) (pick : Bool) :
+    (jit s c pick).1 = s ∨
+    ∃ ci cur pub, findChain s c = some ci ∧ ci.active = true ∧ current s = some cur ∧
+      latestOnChain s c = some pub ∧ pub.id ≠ cur.id ∧ pick = true ∧
+      enough (transform cur c) = true ∧ thresholdForConsensus ≤ powerSum (transform cur c) ∧
+      (jit s c pick).1 = send s c (transform cur c) := by
+  unfold jit
+  split
+  · exact .inl rfl
+  · exact .inl rfl
+  · exact .inl rfl
+  · rename_i ci cur pub hci hcur hpub
+    by_cases h1 : (pub.id == cur.id) = true
+    · simp [h1]
+    · by_cases h2 : ci.active = true
+      · by_cases h3 : enough (transform cur c) = true
+        · cases pick
+          · simp [h1, h2, h3]
+          · refine .inr ⟨ci, cur, pub, hci, h2, hcur, hpub, ?_, rfl, h3, enough_ge h3, ?_⟩
+            · simpa using h1
+            · simp [h1, h2, h3]
+        · simp [h1, h2, h3]
+      · simp [h1, h2]
+
+/-- the rejecting side, stated on the powers: when the current snapshot restricted to the chain
+sums to less than the constant (empty or not), no entry point of the update changes anything -/
+theorem jit_below_quorum_not_sent (s : St) (c : Nat) (pick : Bool) (cur : Snapshot)
+    (hc : current s = some cur) (h : powerSum (transform cur c) < thresholdForConsensus) :
+    (jit s c pick).1 = s ∧ jitBus s c pick = s ∧ (jitEndBlock s c pick).1 = s := by
+  have hj : (jit s c pick).1 = s := by
+    rcases jit_sends_only_with_quorum s c pick with h0 | ⟨_, cur', _, _, _, hc', _, _, _, _, hge, _⟩
+    · exact h0
+    · have : cur' = cur := Option.some.inj (hc'.symm.trans hc)
+      subst this
+      omega
+  refine ⟨hj, hj, ?_⟩
+  unfold jitEndBlock
+  split
+  · rfl
+  · split
+    · rfl
+    · exact hj
+
+/-- the skyway event and the end blocker run the SAME update as `PreJobExecution`: the event is
+the op `jit`; the end blocker does nothing (chain not supported, or an UpdateValset message already
+waits in the queue) or is the op `jit` -/
+theorem entry_points_are_jit (s : St) (c : Nat) (pick : Bool) :
+    jitBus s c pick = step s (.jit c pick) ∧
+    ((jitEndBlock s c pick).1 = s ∨
+      (hasQueuedValset s c = false ∧ (jitEndBlock s c pick).1 = step s (.jit c pick))) := by
+  refine ⟨rfl, ?_⟩
+  unfold jitEndBlock
+  split
+  · exact .inl rfl
+  · by_cases hq : hasQueuedValset s c = true
+    · simp [hq]
+    · refine .inr ⟨by simpa using hq, ?_⟩
+      simp [hq, step]
+
+/-- histories that also use the other two entry points of the just-in-time update -/
+inductive XOp where
+  | op (o : Op)
+  | jitBus (c : Nat) (pick : Bool)
+  | jitEndBlock (c : Nat) (pick : Bool)
+
+def xstep (s : St) : XOp → St
+  | .op o => step s o
+  | .jitBus c pick => jitBus s c pick
+  | .jitEndBlock c pick => (jitEndBlock s c pick).1
+
+def xrun (s : St) (xs : List XOp) : St := xs.foldl xstep s
+
+/-- **entry_points_refine**: every history over the extended operations reaches a state that a
+history over the plain operations reaches (each extra entry point is no step or one `jit` step), so
+every history theorem of this file holds for all three entry points. -/
+theorem entry_points_refine (xs : List XOp) (s : St) : ∃ ops : List Op, xrun s xs = run s ops := by
+  induction xs generalizing s with
+  | nil => exact ⟨[], rfl⟩
+  | cons x xs ih =>
+    have h1 : ∃ ops1 : List Op, xstep s x = run s ops1 := by
+      cases x with
+      | op o => exact ⟨[o], rfl⟩
+      | jitBus c pick => exact ⟨[.jit c pick], rfl⟩
+      | jitEndBlock c pick =>
+        rcases (entry_points_are_jit s c pick).2 with h | ⟨_, h⟩
+        · exact ⟨[], h⟩
+        · exact ⟨[.jit c pick], h⟩
+    obtain ⟨ops1, h1⟩ := h1
+    obtain ⟨ops2, h2⟩ := ih (xstep s x)
+    refine ⟨ops1 ++ ops2, ?_⟩
+    rw [run_append, ← h1, ← h2]
+    rfl
+
+/-- **sent_only_with_quorum over all entry points**: in every history that uses `PreJobExecution`,
+the skyway event and the end blocker in any order, every UpdateValset message ever queued passed
+the quorum test, sums to at least `⌊2·2^32/3⌋` and at most `2^32`, reaches two thirds except at the
+constant itself, and is the valset of a stored snapshot for its chain. -/
+theorem sent_only_with_quorum_all_entry_points (xs : List XOp) :
+    ∀ p ∈ (xrun St.init xs).sent,
+      enough p.2 = true ∧
+      2 * 2 ^ 32 / 3 ≤ (p.2.members.map (·.2)).sum ∧
+      (2 * 2 ^ 32 ≤ 3 * (p.2.members.map (·.2)).sum ∨ (p.2.members.map (·.2)).sum = 2863311530) ∧
+      (p.2.members.map (·.2)).sum ≤ 2 ^ 32 ∧
+      ∃ sn ∈ (xrun St.init xs).snaps, p.2 = transform sn p.1 := by
+  obtain ⟨ops, h⟩ := entry_points_refine xs St.init
+  rw [h]
+  intro p hp
+  obtain ⟨h1, h2, _, h4, h5⟩ := (sent_only_with_quorum_partial ops).1 p hp
+  exact ⟨h1, h2, h4, sent_sum_le ops p hp, h5⟩
+
 /-- **sent_total_pos** (no `x/0` in anything that is sent; about THE snapshot of
 `sent_is_current`). Over all histories, for every position `i` of the log of sent messages there is
 the operation `op` of the history that appended the message and the snapshot `cur` that was current
@@ -2359,6 +2476,47 @@ example : (run St.init (jitOps.take 9)).sent = [] ∧
     (current (run St.init jitOps)).map (·.id) = some 2 ∧
     (run St.init jitOps).snaps.map (fun sn => (sn.id, sn.chains, sn.vals.length)) =
       [(1, [1], 1), (2, [], 2)] := by decide
+
+/-- the class of history in which the gate of the just-in-time update DECIDES something: chain 1
+is active with validators 1..3 on it (snapshot 2, live on chain 1), the chain is removed, snapshot 3
+lists all seven validators, the chain is added again and activated. The current snapshot restricted
+to chain 1 is a proper, NON-EMPTY part of it carrying 3/7 of the stake. -/
+def jitLowOps : List Op :=
+  [.setStaking [⟨1, .bonded, false, 30⟩, ⟨2, .bonded, false, 30⟩, ⟨3, .bonded, false, 30⟩, ⟨4, .bonded, false, 30⟩,
+     ⟨5, .bonded, false, 30⟩, ⟨6, .bonded, false, 30⟩, ⟨7, .bonded, false, 30⟩],
+   .build 1 [], .support 1, .activate 1,
+   .register 1 [⟨0, 1, 101, []⟩], .register 2 [⟨0, 1, 102, []⟩], .register 3 [⟨0, 1, 103, []⟩],
+   .build 2 [1], .onChain 2 1, .remove 1, .build 3 [], .support 1, .activate 1]
+
+/-- … the hypotheses of `jit_below_quorum_not_sent` are met non-trivially (chain active, snapshot 2
+live, snapshot 3 current, three entries summing to 1840700268 < 2863311530), no entry point sends
+anything, and — positive control — once the other four validators registered and snapshot 4 exists
+each entry point sends it (the end blocker only while no UpdateValset message is queued). -/
+example :
+    (findChain (run St.init jitLowOps) 1).map (·.active) = some true ∧
+    (current (run St.init jitLowOps)).map (fun sn => (sn.id, sn.vals.length)) = some (3, 7) ∧
+    (latestOnChain (run St.init jitLowOps) 1).map (·.id) = some 2 ∧
+    (visibleQueue (run St.init jitLowOps)).map (fun p => (p.1, p.2.id)) = [(1, 2)] ∧
+    ((current (run St.init jitLowOps)).map (fun sn => (transform sn 1).members)) =
+      some [(103, 613566756), (102, 613566756), (101, 613566756)] ∧
+    ((current (run St.init jitLowOps)).map (fun sn => powerSum (transform sn 1))) = some 1840700268 ∧
+    (xrun (run St.init jitLowOps) [.op (.jit 1 true), .jitBus 1 true, .jitEndBlock 1 true]).sent =
+      (run St.init jitLowOps).sent ∧
+    (run St.init jitLowOps).sent.map (fun p => (p.1, p.2.id)) = [(1, 2)] := by decide
+
+example :
+    let ctl : List Op := jitLowOps ++ [.register 4 [⟨0, 1, 104, []⟩], .register 5 [⟨0, 1, 105, []⟩],
+      .register 6 [⟨0, 1, 106, []⟩], .register 7 [⟨0, 1, 107, []⟩], .build 4 []]
+    ((xstep (run St.init ctl) (.op (.jit 1 true))).sent.map (fun p => (p.1, p.2.id, powerSum p.2)) =
+      [(1, 2, 4294967295), (1, 4, 4294967292)]) ∧
+    (xstep (run St.init ctl) (.jitBus 1 true)).sent = (xstep (run St.init ctl) (.op (.jit 1 true))).sent ∧
+    -- the end blocker leaves a queue alone in which an UpdateValset message (here: of snapshot 2) waits …
+    (xstep (run St.init ctl) (.jitEndBlock 1 true)).sent = (run St.init ctl).sent ∧
+    -- … and sends when there is none (chain 1 removed and added again hides nothing: same queue; so
+    -- use a state whose queue for chain 1 is empty: chain 2, activated late, snapshot 1 live)
+    (xrun St.init [.op (.setStaking [⟨1, .bonded, false, 5⟩, ⟨2, .bonded, false, 1⟩]), .op (.build 1 []),
+        .op (.support 2), .op (.register 1 [⟨0, 2, 201, []⟩]), .op (.build 2 []), .op (.onChain 1 2),
+        .op (.activate 2), .jitEndBlock 2 true]).sent = [(2, ⟨2, [(201, 3579139413)]⟩)] := by decide
 
 /-- on-chain activation extends the chain list and nothing else; a later build adds snapshot 3 -/
 example : (run St.init (exOps ++ [.onChain 2 1, .onChain 2 3, .onChain 9 1,
